@@ -5,6 +5,7 @@ import (
 	"math/big"
 
 	"github.com/consensys/gnark-crypto/ecc"
+	"github.com/consensys/gnark-crypto/ecc/bn254/fr"
 	"github.com/consensys/gnark/constraint"
 	"github.com/consensys/gnark/frontend"
 	"github.com/consensys/gnark/frontend/cs/r1cs"
@@ -235,6 +236,33 @@ func init() {
 					}
 					if err := try(truth, packLimbs(truth)); err != nil {
 						return fw.Violate("compiled_system_rejects_honest_public_values:"+c.Str("sys"), trunc(err.Error(), 200))
+					}
+					// what goes on chain: the PUBLIC part of the witness must be exactly the four packed values
+					{
+						w, err := frontend.NewWitness(c03Build(in, truth, packLimbs(truth)), ecc.BN254.ScalarField())
+						if err != nil {
+							return fw.Inconcl("witness: " + err.Error())
+						}
+						pw, err := w.Public()
+						if err != nil {
+							return fw.Inconcl("public witness: " + err.Error())
+						}
+						vec, ok := pw.Vector().(fr.Vector)
+						tv := packLimbs(truth)
+						if !ok || len(vec) != 4 {
+							return fw.Violate("public_values_not_public", fmt.Sprintf("the public part of the wrapper's witness has %d entries, expected the 4 packed values", len(vec)))
+						}
+						for j := range vec {
+							var b big.Int
+							vec[j].BigInt(&b)
+							if b.Cmp(tv[j]) != 0 {
+								return fw.Violate("public_values_not_public", fmt.Sprintf("public entry %d is %s, expected %s", j, b.String(), tv[j]))
+							}
+						}
+						if n := ccs.GetNbPublicVariables(); n != 4 && n != 5 {
+							return fw.Violate("public_values_not_public", fmt.Sprintf("compiled system has %d public variables", n))
+						}
+						o.Inc("public_partition_is_the_four_packed_values")
 					}
 					o.Inc("compiled_" + c.Str("sys") + "_honest_solved")
 					cp := func() []*big.Int {
